@@ -327,6 +327,8 @@ impl<B: Region> BlockPool<B> {
     /// Push a block to the thread-local queue
     pub fn push(&self, block: B) {
         self.count.fetch_add(1, Ordering::SeqCst);
+        #[cfg(mmtk_verif)]
+        crate::verif::sync_point("blockpool.push.counted", 0);
         let id = crate::scheduler::current_worker_ordinal();
         let failed = unsafe {
             self.worker_local_freed_blocks[id]
@@ -339,6 +341,8 @@ impl<B: Region> BlockPool<B> {
             debug_assert!(result.is_ok());
             let old_queue = self.worker_local_freed_blocks[id].replace(queue);
             assert!(!old_queue.is_empty());
+            #[cfg(mmtk_verif)]
+            crate::verif::sync_point("blockpool.push.detached", 0);
             self.global_freed_blocks.write().push(old_queue);
         }
     }
@@ -348,11 +352,17 @@ impl<B: Region> BlockPool<B> {
         if self.len() == 0 {
             return None;
         }
+        #[cfg(mmtk_verif)]
+        crate::verif::sync_point("blockpool.pop.checked", 0);
         let head_global_freed_blocks = self.head_global_freed_blocks.upgradeable_read();
         if let Some(block) = head_global_freed_blocks.as_ref().and_then(|q| q.pop()) {
+            #[cfg(mmtk_verif)]
+            crate::verif::sync_point("blockpool.pop.taken", 0);
             self.count.fetch_sub(1, Ordering::SeqCst);
             Some(block)
         } else {
+            #[cfg(mmtk_verif)]
+            crate::verif::sync_point("blockpool.pop.slow", 0);
             let mut global_freed_blocks = self.global_freed_blocks.write();
             // Retry fast-alloc
             if let Some(block) = head_global_freed_blocks.as_ref().and_then(|q| q.pop()) {
@@ -410,6 +420,31 @@ impl<B: Region> BlockPool<B> {
         }
         for array in &self.worker_local_freed_blocks {
             array.iterate_blocks(f);
+        }
+    }
+}
+
+/// Verification hooks (only with `--cfg mmtk_verif`).
+#[cfg(mmtk_verif)]
+impl<B: Region> BlockPool<B> {
+    /// Capacity of one `BlockQueue`.
+    pub const VERIF_CAPACITY: usize = BlockQueue::<B>::CAPACITY;
+
+    /// Add `blocks` to the global pool the way `alloc_pages_slow_sync` adds the blocks of a fresh
+    /// chunk: fill `BlockQueue`s with `push_relaxed` and hand each to `add_global_array`.
+    pub fn verif_add_global_arrays(&self, blocks: &[B]) {
+        let mut array = BlockQueue::new();
+        for b in blocks {
+            let result = unsafe { array.push_relaxed(*b) };
+            if let Err(block) = result {
+                self.add_global_array(array);
+                array = BlockQueue::new();
+                let result2 = unsafe { array.push_relaxed(block) };
+                debug_assert!(result2.is_ok());
+            }
+        }
+        if !array.is_empty() {
+            self.add_global_array(array);
         }
     }
 }
